@@ -5,7 +5,7 @@ import ast
 from .. import anchors as A
 from ..cfg import all_stmts
 from ..effects import DICT, func_writes, stmt_writes
-from ..model import call_name, dotted, is_self_attr, short
+from ..model import AnalysisError, call_name, dotted, is_self_attr, short
 from .c05 import lookup_path
 from .c18 import _publications, commit_last, publish_last
 from .common import cfg_of, recv_name
@@ -193,7 +193,61 @@ def r11_resolution_completes_whatever_is_cached(ctx):
     resolveexec.law_prefilled(ctx)
 
 
+def r13_lookup_never_iterates_its_caches(ctx):
+    """A table the lookup path fills (the dictionary itself, the filed errors, the applicable-code sets) is never
+    iterated on the lookup path: another thread's cache miss inserts into it at any moment, and iterating a dictionary
+    that changes size raises RuntimeError."""
+    from .c18 import cache_stores
+
+    repo = ctx.repo
+    n = 0
+    for cls in (A.typemap(repo), A.multimap(repo)):
+        filled = {w.attr for (_, _, w, _) in cache_stores(ctx, cls)}
+        if not filled:
+            raise AnalysisError(f"{cls.key}: the lookup path fills no table")
+        for m in lookup_path(ctx, cls):
+            rv = recv_name(m)
+            ctx.touch(m)
+
+            def is_table(e):
+                if isinstance(e, ast.Name) and e.id == rv and DICT in filled:
+                    return "the table itself"
+                if is_self_attr(e, selfname=rv) and e.attr in filled:
+                    return f"self.{e.attr}"
+                return None
+
+            bad = None
+            for x in ast.walk(m.node):
+                its = []
+                if isinstance(x, (ast.For, ast.comprehension)):
+                    its.append(x.iter)
+                elif isinstance(x, ast.Call):
+                    if isinstance(x.func, ast.Attribute) and x.func.attr in ("values", "items", "keys") and not x.args:
+                        its.append(x.func.value)
+                    elif call_name(x) in ("list", "tuple", "set", "sorted", "dict", "iter", "any", "all", "sum", "max", "min", "next", "frozenset", "enumerate", "zip", "map", "filter") and x.args:
+                        its.extend(x.args)
+                elif isinstance(x, ast.Starred):
+                    its.append(x.value)
+                for it in its:
+                    if isinstance(it, ast.Call) and isinstance(it.func, ast.Attribute) and it.func.attr in ("values", "items", "keys"):
+                        it = it.func.value
+                    t = is_table(it)
+                    if t and bad is None:
+                        bad = (x, t)
+            n += 1
+            ctx.ob(
+                f"{m.key}:never-iterates-its-caches",
+                m.loc(bad[0]) if bad else m.loc(),
+                f"{m.name}() never iterates over a table the lookup path fills ({', '.join(sorted('the table itself' if f == DICT else 'self.' + f for f in filled))})",
+                bad is None,
+                (f"`{short(bad[0], 50)}` iterates over {bad[1]} on the lookup path: while one thread walks it, another thread's first call for a new argument type inserts an entry and the walk dies with 'dictionary changed size during iteration' - an internal error surfacing from a perfectly valid call" if bad else ""),
+            )
+    if n < 4:
+        raise AnalysisError("expected the lookup paths of both tables")
+
+
 RULES = [
+    ("C19.R13", "P1", r13_lookup_never_iterates_its_caches, "the lookup path never iterates over a table it fills"),
     ("C19.R6", "P1", r6, "bookkeeping read by concurrent lookups is written before the entry that makes them possible"),
     ("C19.R5", "P1", r5_per_call_state_is_local, "the generated entry point keeps its per-call state in locals"),
     ("C19.R1", "P1", r1, "publish last (interleaving reading)"),
